@@ -80,34 +80,50 @@ RemU(s, r) == LET R == Reach(s, r) IN
                S |-> [x \in DOMAIN s.S \cap R |-> s.S[x] \cap R],
                P |-> [x \in DOMAIN s.P \cap R |-> s.P[x] \cap R]]
 
-\* an operation is a record: [op |-> "insert_vertex", v |-> id] etc.
+\* guards: when the operation succeeds (otherwise it reports an error and changes nothing)
+CanInsV(s, v)    == v \notin s.V                                          \* no duplicate index
+CanInsE(s, h, t) == h \in s.V /\ t \in s.V /\ <<h, t>> \notin s.E          \* endpoints exist, no duplicate edge
+CanRemV(s, v)    == v \in s.V
+CanRemE(s, h, t) == <<h, t>> \in s.E
+CanRemU(s, r)    == r \in s.V
+
+InsertVertex(v)         == CanInsV(Cur, v) /\ Set(InsV(Cur, v))
+InsertVertexErr(v)      == ~CanInsV(Cur, v) /\ UNCHANGED gvars
+InsertEdge(h, t)        == CanInsE(Cur, h, t) /\ Set(InsE(Cur, h, t))
+InsertEdgeErr(h, t)     == ~CanInsE(Cur, h, t) /\ UNCHANGED gvars
+RemoveVertex(v)         == CanRemV(Cur, v) /\ Set(RemV(Cur, v))
+RemoveVertexErr(v)      == ~CanRemV(Cur, v) /\ UNCHANGED gvars
+RemoveEdge(h, t)        == CanRemE(Cur, h, t) /\ Set(RemE(Cur, h, t))
+RemoveEdgeErr(h, t)     == ~CanRemE(Cur, h, t) /\ UNCHANGED gvars
+RemoveUnreachable(r)    == CanRemU(Cur, r) /\ Set(RemU(Cur, r))
+RemoveUnreachableErr(r) == ~CanRemU(Cur, r) /\ UNCHANGED gvars
+
+\* the same, dispatched on an operation record [op |-> "insert_vertex", v |-> id] etc.
+\* (used by the trace specification, which first computes what must be observed)
 OpOk(s, o) ==
-  CASE o.op = "insert_vertex"      -> o.v \notin s.V
-    [] o.op = "insert_edge"        -> o.h \in s.V /\ o.t \in s.V /\ <<o.h, o.t>> \notin s.E
-    [] o.op = "remove_vertex"      -> o.v \in s.V
-    [] o.op = "remove_edge"        -> <<o.h, o.t>> \in s.E
-    [] o.op = "remove_unreachable" -> o.r \in s.V
+  CASE o.op = "insert_vertex"      -> CanInsV(s, o.v)
+    [] o.op = "insert_edge"        -> CanInsE(s, o.h, o.t)
+    [] o.op = "remove_vertex"      -> CanRemV(s, o.v)
+    [] o.op = "remove_edge"        -> CanRemE(s, o.h, o.t)
+    [] o.op = "remove_unreachable" -> CanRemU(s, o.r)
 OpPost(s, o) ==
   CASE o.op = "insert_vertex"      -> InsV(s, o.v)
     [] o.op = "insert_edge"        -> InsE(s, o.h, o.t)
     [] o.op = "remove_vertex"      -> RemV(s, o.v)
     [] o.op = "remove_edge"        -> RemE(s, o.h, o.t)
     [] o.op = "remove_unreachable" -> RemU(s, o.r)
-
-\* the operation succeeds and changes the four views / fails and changes nothing
-Do(o)    == OpOk(Cur, o) /\ Set(OpPost(Cur, o))
-DoErr(o) == ~OpOk(Cur, o) /\ UNCHANGED gvars
-
-InsertVertex(v)         == Do([op |-> "insert_vertex", v |-> v])
-InsertVertexErr(v)      == DoErr([op |-> "insert_vertex", v |-> v])        \* duplicate index
-InsertEdge(h, t)        == Do([op |-> "insert_edge", h |-> h, t |-> t])
-InsertEdgeErr(h, t)     == DoErr([op |-> "insert_edge", h |-> h, t |-> t]) \* duplicate edge / missing endpoint
-RemoveVertex(v)         == Do([op |-> "remove_vertex", v |-> v])
-RemoveVertexErr(v)      == DoErr([op |-> "remove_vertex", v |-> v])
-RemoveEdge(h, t)        == Do([op |-> "remove_edge", h |-> h, t |-> t])
-RemoveEdgeErr(h, t)     == DoErr([op |-> "remove_edge", h |-> h, t |-> t])
-RemoveUnreachable(r)    == Do([op |-> "remove_unreachable", r |-> r])
-RemoveUnreachableErr(r) == DoErr([op |-> "remove_unreachable", r |-> r])
+Do(o) ==
+  CASE o.op = "insert_vertex"      -> InsertVertex(o.v)
+    [] o.op = "insert_edge"        -> InsertEdge(o.h, o.t)
+    [] o.op = "remove_vertex"      -> RemoveVertex(o.v)
+    [] o.op = "remove_edge"        -> RemoveEdge(o.h, o.t)
+    [] o.op = "remove_unreachable" -> RemoveUnreachable(o.r)
+DoErr(o) ==
+  CASE o.op = "insert_vertex"      -> InsertVertexErr(o.v)
+    [] o.op = "insert_edge"        -> InsertEdgeErr(o.h, o.t)
+    [] o.op = "remove_vertex"      -> RemoveVertexErr(o.v)
+    [] o.op = "remove_edge"        -> RemoveEdgeErr(o.h, o.t)
+    [] o.op = "remove_unreachable" -> RemoveUnreachableErr(o.r)
 
 InitEmpty == vertices = {} /\ edges = {} /\ succ = EmptyGraph.S /\ pred = EmptyGraph.P
 
